@@ -4,14 +4,17 @@ From Boreal Require Import Base.Prelude Base.ListX Base.Bytes Base.Consts.
 
 Definition byte_rank (b : N) : N := nnth 20 b BYTE_RANK_TABLE.
 
-(* atom_rank; `quality -= …` is a u32 subtraction (N's truncated subtraction never fires for the
-   translated table: every rank is >= the penalty factor, lemma atom_rank_no_underflow) *)
-Definition atom_rank (atom : bytes) : N :=
-  let quality := nsum (map byte_rank atom) in
+(* atom_rank, over a byte-rank function and the three tuning constants; `quality -= …` is a u32
+   subtraction (N's truncated subtraction never fires for the translated table: every rank is >= the
+   penalty factor) *)
+Definition atom_rank_with (brank : N -> N) (common : list N) (penalty bonus : N) (atom : bytes) : N :=
+  let quality := nsum (map brank atom) in
   let nb_uniq := nlen (dedup N.eqb atom) in
-  if (nb_uniq =? 1) && existsb (fun c => memb N.eqb c atom) ATOM_COMMON_BYTES
-  then quality - ATOM_UNIFORM_PENALTY * nlen atom
-  else quality + ATOM_UNIQ_BONUS * nb_uniq.
+  if (nb_uniq =? 1) && existsb (fun c => memb N.eqb c atom) common
+  then quality - penalty * nlen atom
+  else quality + bonus * nb_uniq.
+Definition atom_rank : bytes -> N :=
+  atom_rank_with byte_rank ATOM_COMMON_BYTES ATOM_UNIFORM_PENALTY ATOM_UNIQ_BONUS.
 
 (* lit.windows(ATOM_SIZE) *)
 Definition windows (lit : bytes) : list bytes :=
@@ -26,9 +29,10 @@ Fixpoint last_max_from (i : N) (best_i best : N) (ks : list N) : N :=
 Definition last_max_idx (ks : list N) : N :=
   match ks with [] => 0 | k :: ks' => last_max_from 1 0 k ks' end.
 
-Definition pick_atom_in_literal (lit : bytes) : N * N :=
+Definition pick_atom_with (rank : bytes -> N) (lit : bytes) : N * N :=
   if nlen lit <=? ATOM_SIZE then (0, 0)
-  else let i := last_max_idx (map atom_rank (windows lit)) in (i, nlen lit - i - ATOM_SIZE).
+  else let i := last_max_idx (map rank (windows lit)) in (i, nlen lit - i - ATOM_SIZE).
+Definition pick_atom_in_literal : bytes -> N * N := pick_atom_with atom_rank.
 
 Definition atom_quality_from_literal (lit : bytes) : N :=
   if nlen lit <=? ATOM_SIZE then atom_rank lit
